@@ -248,7 +248,7 @@ def plan(tier):
     k = 12 if tier == 'quick' else 16
     # the first 8 shards keep ONE zone for the whole worker process (state cached per process cannot hide behind zone switching);
     # the others switch zones per case
-    return [{'kind': 'mixed', 'n': 900 if tier == 'quick' else 50000, 'k': i, 'zone': ZONES[i] if i < 8 else None} for i in range(k)] + [{'kind': 'invalid'}]
+    return [{'kind': 'mixed', 'n': 3000 if tier == 'quick' else 50000, 'k': i, 'zone': ZONES[i] if i < 8 else None} for i in range(k)] + [{'kind': 'invalid'}]
 
 
 def run_shard(ctx, spec):
